@@ -48,13 +48,13 @@ m = {
         {
             "name": "E2-z3",
             "path": "vf/e2_regex.py, vf/e2_dp.py",
-            "serves_properties": [p for p in sorted(PROPS) if p in ("C01", "C03", "C09", "C14", "C17", "C19", "C20")],
+            "serves_properties": [p for p in sorted(PROPS) if p in ("C01", "C03", "C09", "C10", "C14", "C17", "C19", "C20")],
             "kind_free_text": "direct z3 encodings regenerated from the imported source at run time: regex -> z3 Re (language inclusion), If-merging evaluator for integer kernels, two-thread interleaving model",
         },
     ],
     "checks": checks,
     "not_applicable": [{"property_id": p, "reason": r} for p, r in sorted(NOT_APPLICABLE.items())],
-    "notes": "Exit codes: 0 all obligations discharged (KNOWN-FINDING lines allowed), 1 replayed violation not listed in known_findings.json, 3 inconclusive / harness error (never reported as success). All results are bounded; bounds and what lies outside them are in each evidence file and DESIGN.md.",
+    "notes": "Thorough tier = every quick obligation plus the deeper obligations that fit a per-property CPU budget (vf/registry.py:thorough_selection; VF_THOROUGH_BUDGET, VF_THOROUGH_MAX_TIMEOUT raise it); deeper obligations that are defined but not run are listed in the evidence file under coverage.defined_not_run and are outside the claim. E2 engines also serve C10 (numeric literal lexing). Exit codes: 0 all obligations discharged (KNOWN-FINDING lines allowed), 1 replayed violation not listed in known_findings.json, 3 inconclusive / harness error (never reported as success). All results are bounded; bounds and what lies outside them are in each evidence file and DESIGN.md.",
 }
 json.dump(m, open("/verif/MANIFEST.json", "w"), indent=1)
 print("claimed:", sorted(PROPS), "not_applicable:", sorted(NOT_APPLICABLE))
